@@ -258,7 +258,16 @@ func execSched(sc *schedScn, prefix []int) (res sched.Res) {
 	w.LN.Hook = func(m, method string) { s.Point("ln:" + method) }
 	sc.setup(x)
 	if len(w.V) > 0 {
-		return sched.Res{Err: "setup raised: " + w.V[0].What}
+		// the sequential set-up already breaks an oracle: report that, nothing to schedule
+		for _, v := range w.V {
+			if v.Property == "HARNESS" {
+				return sched.Res{Err: v.What}
+			}
+			v.Key = sc.name + "/set-up/" + v.Key
+			v.What = "during the sequential set-up: " + v.What
+			res.V = append(res.V, v)
+		}
+		return res
 	}
 	s.Run()
 	if s.Err != nil {
